@@ -115,7 +115,9 @@ class C11(PropertyCheck):
         jobs = []
         for ci, cfg in enumerate(configs):
             jobs.append({'id': f'c{ci}', 'src': program, 'calls': [n for n, _, _ in fns],
-                         'limits': {'perms': {p: v for p, v in cfg.items() if v is not None}}})
+                         # every second configuration names the permissions by id through host-made Permission values (same id, the
+                         # other default) instead of the builtin constants: the outcome must be the same
+                         'limits': {'perms': {p: v for p, v in cfg.items() if v is not None}, 'perms_by_id': ci % 2 == 1}})
         res = core.run_harness(binary, jobs, os.path.join(workdir, 'h'), timeout=600)
         # model predictions: per (config, entry)
         terms = []
